@@ -14,7 +14,7 @@ Definition init_values (g : graph) (inits : list (N * idict)) : list N :=
 
 Definition s_w : name := [119].  Definition s_w1 : name := [119; 95; 49].
 Definition s_x : name := [120].  Definition s_x1 : name := [120; 95; 49].
-Definition s_y : name := [121].
+Definition s_y : name := [121].  Definition s_a0 : name := [97].
 
 (* (1) inputs [w], initializers [w ; w_1] *)
 Definition wit_total_graph := Graph 0 false [0] [] [].
@@ -24,7 +24,7 @@ Definition wit_total_inits : list (N * idict) := [(0, [(s_w, 1); (s_w1, 2)])].
 (* before fix 25cf9b5 this run ended with ValueError (C15_fix_total_refuted); now: input w kept, the
    duplicated initializer becomes w_2 (w_1 is reserved), w_1 keeps its name *)
 Lemma wit_total_now_ok :
-  let r := name_fix_pass wit_total_graph [] (fun _ => 0) (fun _ => 0) wit_total_vn (fun _ => None) wit_total_inits in
+  let r := name_fix_pass wit_total_graph [] (fun _ => None) (fun _ => 0) (fun _ => 0) wit_total_vn (fun _ => None) wit_total_inits in
   snd r = None /\ map (f_vn (fst r)) [0; 1; 2] = [Some s_w; Some [119; 95; 50]; Some s_w1] /\
   f_inits (fst r) = [(0, [(s_w1, 2); ([119; 95; 50], 1)])].
 Proof. vm_compute. auto. Qed.
@@ -35,7 +35,7 @@ Definition wit_keep_vn := of_alist None [(0, Some s_x); (1, Some s_x); (2, Some 
 
 (* before fix 25cf9b5: x, x, x_1 -> x, x_1, x_1_1 (C15_fix_keeps_unique_refuted); now the unique x_1 is kept *)
 Lemma wit_keep_now_ok :
-  let r := name_fix_pass wit_keep_graph [] (fun _ => 0) (fun _ => 0) wit_keep_vn (fun _ => None) [] in
+  let r := name_fix_pass wit_keep_graph [] (fun _ => None) (fun _ => 0) (fun _ => 0) wit_keep_vn (fun _ => None) [] in
   snd r = None /\ map (f_vn (fst r)) [0; 1; 2] = [Some s_x; Some [120; 95; 50]; Some s_x1].
 Proof. vm_compute. auto. Qed.
 
@@ -47,12 +47,29 @@ Definition wit_unsorted_graph :=
 Definition wit_unsorted_vn := of_alist None [(0, Some [99]); (1, Some s_y); (2, Some [105]); (3, Some [102]); (4, Some s_y)].
 Definition wit_unsorted_nn := of_alist None [(0, Some [97]); (1, Some [98]); (2, Some [99]); (3, Some [100])].
 
-Lemma fix_post_unsorted_refuted :
-  let r := name_fix_pass wit_unsorted_graph [] (fun _ => 0) (fun _ => 0) wit_unsorted_vn wit_unsorted_nn [] in
-  snd r = None /\ f_mod (fst r) = false /\
-  In 1 (own_values wit_unsorted_graph) /\ In 4 (own_values wit_unsorted_graph) /\
-  f_vn (fst r) 1 = f_vn (fst r) 4.
-Proof. vm_compute. repeat split; auto 10. Qed.
+Definition wit_unsorted_own := of_alist None [(0, Some 0); (1, Some 0); (2, Some 1); (3, Some 0); (4, Some 0)].
+
+(* before fix 5fabe37 the two outputs 1 and 4 of nodes of the main graph kept the same name y with modified = false
+   (C15_fix_post_unsorted_refuted); now the captured value's name is recorded in the main graph's scope *)
+Lemma wit_unsorted_now_ok :
+  let r := name_fix_pass wit_unsorted_graph [] wit_unsorted_own (fun _ => 0) (fun _ => 0) wit_unsorted_vn wit_unsorted_nn [] in
+  snd r = None /\ f_mod (fst r) = true /\
+  map (f_vn (fst r)) [0; 1; 2; 3; 4] = [Some [99]; Some s_y; Some [105]; Some [102]; Some [121; 95; 49]].
+Proof. vm_compute. auto. Qed.
+
+(* (3b) a subgraph reads a value owned by a SIBLING subgraph (not valid ONNX): the owner's scope is not open when the
+   value is first met, nothing can be recorded, and two values of the sibling keep the same name *)
+Definition wit_sibling_graph :=
+  Graph 0 false [0] []
+    [Node 0 [Some 0] [1] [Graph 1 false [] [] [Node 1 [Some 2] [3] []]; Graph 2 false [2] [] [Node 2 [Some 2] [4] []]]].
+Definition wit_sibling_vn := of_alist None [(0, Some [99]); (1, Some [111]); (2, Some s_a0); (3, Some [112]); (4, Some s_a0)].
+Definition wit_sibling_nn := of_alist None [(0, Some [97]); (1, Some [98]); (2, Some [99])].
+Definition wit_sibling_own := of_alist None [(0, Some 0); (1, Some 0); (2, Some 2); (3, Some 1); (4, Some 2)].
+
+Lemma fix_post_sibling_refuted :
+  let r := name_fix_pass wit_sibling_graph [] wit_sibling_own (fun _ => 0) (fun _ => 0) wit_sibling_vn wit_sibling_nn [] in
+  snd r = None /\ f_mod (fst r) = false /\ f_vn (fst r) 2 = f_vn (fst r) 4.
+Proof. vm_compute. auto. Qed.
 
 (* (4) a function body that reads an initializer of the main graph (not valid ONNX: functions are closed):
    the run over the function renames that initializer without having pre-scanned the main graph's keys *)
@@ -64,7 +81,7 @@ Definition wit_unclosed_nn := of_alist None [(0, Some [110])].
 Definition wit_unclosed_inits : list (N * idict) := [(0, [(s_a, 0); (s_a1, 1)])].
 
 Lemma fix_total_unclosed_refuted :
-  snd (name_fix_pass wit_unclosed_main [wit_unclosed_func] (fun _ => 0) (fun _ => 0)
+  snd (name_fix_pass wit_unclosed_main [wit_unclosed_func] (fun _ => None) (fun _ => 0) (fun _ => 0)
          wit_unclosed_vn wit_unclosed_nn wit_unclosed_inits) = Some ValueError.
 Proof. vm_compute. reflexivity. Qed.
 
@@ -78,7 +95,7 @@ Definition wit_shared_nn := of_alist None [(0, Some [110])].
 Definition wit_shared_inits : list (N * idict) := [(0, [(s_x, 1)])].
 
 Lemma fix_keeps_unique_shared_refuted :
-  let r := name_fix_pass wit_shared_main [wit_shared_func] (fun _ => 0) (fun _ => 0) wit_shared_vn wit_shared_nn wit_shared_inits in
+  let r := name_fix_pass wit_shared_main [wit_shared_func] (fun _ => None) (fun _ => 0) (fun _ => 0) wit_shared_vn wit_shared_nn wit_shared_inits in
   snd r = None /\ wit_shared_vn 2 = Some s_x1 /\ (forall u, In u [0; 1] -> wit_shared_vn u <> Some s_x1) /\
   f_vn (fst r) 2 <> Some s_x1.
 Proof. vm_compute. repeat split; try discriminate. intros u [<-|[<-|[]]]; discriminate. Qed.
